@@ -275,7 +275,7 @@ def tlc_validate(spec, cfg, events, timeout=1500, keep=None, heap="4g", env=None
         infra("TLC trace validation failed on %s (rc=%d)" % (spec, rc))
     d = _DEPTH.search(out)
     consumed = (int(d.group(1)) - 1) if d else 0
-    bad, kf = [], []
+    bad, kf, disc = [], [], []
     for rec in _printed(out):
         if not isinstance(rec, dict) or "i" not in rec:
             continue
@@ -284,6 +284,8 @@ def tlc_validate(spec, cfg, events, timeout=1500, keep=None, heap="4g", env=None
         v = rec.get("v", "bad")
         if v.startswith("kf:"):
             kf.append((i, ev, v[3:]))
+        elif v.startswith("discard:"):
+            disc.append((i, ev, v[8:]))
         else:
             bad.append((i, ev, v))
     accepted = rc == 0 and consumed == len(events) and not bad
@@ -296,7 +298,7 @@ def tlc_validate(spec, cfg, events, timeout=1500, keep=None, heap="4g", env=None
             os.remove(path)
         except OSError:
             pass
-    return {"accepted": accepted, "consumed": consumed, "n": len(events), "bad": bad, "kf": kf, "out": out, "rc": rc, "wall": wall}
+    return {"accepted": accepted, "consumed": consumed, "n": len(events), "bad": bad, "kf": kf, "discarded": disc, "out": out, "rc": rc, "wall": wall}
 
 
 # ----------------------------------------------------------------------------------------------- per-check bookkeeping
@@ -363,6 +365,8 @@ class Check:
                 self.kf_seen[kid] = self.kf_seen.get(kid, 0) + 1
             else:
                 self.violation("event %d matches finding %s which is not listed as known" % (i, kid), ev, case_of)
+        for (i, ev, v) in r.get("discarded", []):
+            self.discard(v)
         for (i, ev, v) in r["bad"]:
             self.violation("trace %s rejected at event %d (%s)" % (spec, i, v), ev, case_of)
         return r
